@@ -8,6 +8,21 @@ cd "$(dirname "$0")/.." || exit 2
 import json, jsonschema
 jsonschema.validate(json.load(open("MANIFEST.json")), json.load(open("/root/.vp/MANIFEST.schema.json")))
 print("manifest valid")
+import glob, sys
+esch = json.load(open("/root/.vp/EVIDENCE.schema.json"))
+bad = []
+for chk in json.load(open("MANIFEST.json"))["checks"]:
+    f = chk["evidence_file"]
+    try:
+        e = json.load(open(f)); jsonschema.validate(e, esch)
+        c = e["coverage"]
+        if c.get("obligations") != c.get("discharged") or e.get("violations"):
+            bad.append("%s: obligations %s discharged %s violations %s" % (f, c.get("obligations"), c.get("discharged"), e.get("violations")))
+    except Exception as ex:
+        bad.append("%s: %s" % (f, str(ex)[:100]))
+if bad:
+    print("EVIDENCE NOT CLEAN (re-run these checks on the unchanged tree before committing):"); print("\n".join(bad)); sys.exit(1)
+print("evidence files valid")
 PY
 ./setup.sh > /tmp/gate_setup.log 2>&1 || { tail -30 /tmp/gate_setup.log; echo "setup failed"; exit 1; }
 tail -1 /tmp/gate_setup.log
